@@ -18,9 +18,9 @@ CHECK = {
     "technique": "property-based testing (rapid): stateful hostile-input sequences with structured mutation of genuine vectors; robustness oracle (no panic, call returns, reply well-formed, node still serves); native go fuzz of the talk handler in thorough",
     "crash_is_violation": True,
     "runs": [
-        {"name": "surfaces", "run": "^TestC01_Surfaces$", "checks": {"quick": 300, "thorough": 4000}, "shards": {"quick": 6, "thorough": 16}},
-        {"name": "lookups", "run": "^TestC01_Lookups$", "checks": {"quick": 20, "thorough": 200}, "shards": {"quick": 4, "thorough": 16}},
-        {"name": "wire", "run": "^TestC01_Wire$", "checks": {"quick": 60, "thorough": 600}, "shards": {"quick": 4, "thorough": 16}},
+        {"name": "surfaces", "run": "^TestC01_Surfaces$", "checks": {"quick": 100, "thorough": 120}, "shards": {"quick": 6, "thorough": 16}, "rounds": {"quick": 3, "thorough": 8}},
+        {"name": "lookups", "run": "^TestC01_Lookups$", "checks": {"quick": 20, "thorough": 40}, "shards": {"quick": 4, "thorough": 16}, "rounds": {"quick": 1, "thorough": 3}},
+        {"name": "wire", "run": "^TestC01_Wire$", "checks": {"quick": 30, "thorough": 60}, "shards": {"quick": 4, "thorough": 16}, "rounds": {"quick": 2, "thorough": 4}},
     ],
     "fuzz": [{"name": "FuzzC01Talk", "time": "120s"}],
     "rule": "rapid draws (network, 1..30 steps {surface, sender, bytes}) resp. (network, 1..25 packets on the portal or uTP channel). Keys: empty, selector only, selector + short/32/long body, "
